@@ -84,11 +84,17 @@ type CropOpt struct {
 	Scenario    string // normal | drought | frost | wet | heat
 	AutoHarvest bool
 	Followers   int // further random annual crops after the target crop
+	AfterLey    string // "" | "GR" | "AA": a ley (one rotation line of a permanent crop) is grown before the target crop
+	EarlyCut    bool   // the target crop is cut green, long before it ripens
 }
 
 // GenCrop draws a project whose first grown crop is o.Set.
 func GenCrop(r *vh.Rng, name string, o CropOpt) *Project {
-	p := Gen(r, name, Opt{Years: 3, NoCrop: true, ShallowGW: o.Scenario == "wet", MinLayers: 3})
+	years := 3
+	if o.AfterLey != "" {
+		years = 4
+	}
+	p := Gen(r, name, Opt{Years: years, NoCrop: true, ShallowGW: o.Scenario == "wet", MinLayers: 3})
 	// ---- rotation: target crop, then followers
 	start := p.Rot[0].Harvest
 	end := p.End()
@@ -112,7 +118,28 @@ func GenCrop(r *vh.Rng, name string, o CropOpt) *Project {
 		cur = har
 		return true
 	}
+	if o.AfterLey != "" {
+		// the ley: sown shortly after the start, ploughed in after one or two seasons (a single rotation line; stands that are
+		// cut several times are entered as several lines and are not generated here)
+		sow := start.AddDays(r.Range(8, 30))
+		har := sow.AddDays(r.Range(150, 420))
+		p.Rot = append(p.Rot, RotEntry{Crop: o.AfterLey, Sow: sow, Harvest: har, Rex: r.Intn(100)})
+		cur = har
+	}
 	add(CalOf(o.Set.Code), o.Set.Variety)
+	if o.EarlyCut && len(p.Rot) > 1 {
+		t := &p.Rot[len(p.Rot)-1]
+		if t.Crop == o.Set.Code {
+			cut := t.Sow.AddDays(r.Range(45, 110))
+			if CalOf(t.Crop).Winter {
+				cut = Date{t.Sow.Y + 1, r.Range(4, 6), r.Range(1, 28)}
+			}
+			if cut.Z() < t.Harvest.Z() {
+				t.Harvest = cut
+				cur = cut
+			}
+		}
+	}
 	for k := 0; k < o.Followers; k++ {
 		if !add(Crops[r.Intn(len(Crops))], "") {
 			break
